@@ -11,6 +11,6 @@ def expected_ops():
         "T", "repeat", "reshape", "roll", "squeeze", "tile", "matmul", "tensordot", "vecdot", "outer", "index",
         "take", "diff", "searchsorted", "isin", "pad", "rechunk", "tril", "triu", "zeros_like", "ones_like",
         "full_like", "map_blocks", "map_overlap_sum3", "gufunc_mean_last", "gufunc_outer_add", "qr", "svd",
-        "svdvals", "groupby_sum", "groupby_blockwise_sum", "merge_chunks", "map_blocks_addid", "create:arange", "create:linspace", "create:eye", "create:full", "create:ones", "create:zeros",
+        "svdvals", "groupby_sum", "groupby_blockwise_sum", "merge_chunks", "map_blocks_addid", "blocks", "create:arange", "create:linspace", "create:eye", "create:full", "create:ones", "create:zeros",
     }
     return sorted(ops)
